@@ -102,6 +102,7 @@ class Opts:
         self.force_parts = None      # set of part names forced present
         self.forbid_parts = set()
         self.special_floats = True
+        self.dtype_instances = 0.0   # probability that a feature type is declared with a numpy dtype INSTANCE (np.dtype('float32')) instead of the class
         self.unordered_pairs = 0.0   # probability that a match pair is stored against the convention image1 < image2
         self.__dict__.update(kw)
 
@@ -269,6 +270,8 @@ def gen_dataset(rng, opts=None):
             for t in rng.sample(o.feature_types, rng.randint(min(o.min_kp_types, len(o.feature_types)), len(o.feature_types))):
                 ims = sorted(rng.sample(images, rng.randint(1, len(images))))
                 kps[t] = {'dtype': rng.choice(o.dtypes), 'dsize': rng.choice([2, 4, 6]), 'images': ims}
+                if rng.random() < o.dtype_instances:
+                    kps[t]['dtype_instance'] = True
             d['keypoints'] = kps
             kp_types = list(kps)
         if present('descriptors') and kp_types:
@@ -358,11 +361,11 @@ def mk_pose(p):
     return kapture.PoseTransform(r=r, t=t)
 
 
-def np_type(name):
+def np_type(name, as_instance=False):
     import numpy
     if name == 'float':
         return float
-    return getattr(numpy, name)
+    return numpy.dtype(getattr(numpy, name)) if as_instance else getattr(numpy, name)
 
 
 def build(d):
@@ -433,13 +436,13 @@ def build(d):
                 rec[ts, dev] = getattr(kapture, rcls)(F(x), F(y), F(z))
             setattr(k, part, rec)
     if d.get('keypoints') is not None:
-        k.keypoints = {t: kapture.Keypoints(t, np_type(v['dtype']), v['dsize'], list(v['images']))
+        k.keypoints = {t: kapture.Keypoints(t, np_type(v['dtype'], v.get('dtype_instance')), v['dsize'], list(v['images']))
                        for t, v in d['keypoints'].items()}
     if d.get('descriptors') is not None:
-        k.descriptors = {t: kapture.Descriptors(t, np_type(v['dtype']), v['dsize'], v['keypoints_type'], v['metric_type'],
+        k.descriptors = {t: kapture.Descriptors(t, np_type(v['dtype'], v.get('dtype_instance')), v['dsize'], v['keypoints_type'], v['metric_type'],
                                                 list(v['images'])) for t, v in d['descriptors'].items()}
     if d.get('global_features') is not None:
-        k.global_features = {t: kapture.GlobalFeatures(t, np_type(v['dtype']), v['dsize'], v['metric_type'], list(v['images']))
+        k.global_features = {t: kapture.GlobalFeatures(t, np_type(v['dtype'], v.get('dtype_instance')), v['dsize'], v['metric_type'], list(v['images']))
                              for t, v in d['global_features'].items()}
     if d.get('matches') is not None:
         k.matches = {}
